@@ -74,9 +74,11 @@ pub fn render(rng: &mut Rng, wcnf: bool, num_vars: usize, clauses: &[(u64, Vec<i
             s.push(' ');
             return;
         }
-        match rng.below(12) {
+        match rng.below(13) {
             0 => s.push_str("  "),
             1 => s.push('\t'),
+            // runs of mixed whitespace
+            12 => s.push_str(*rng.pick(&[" \t", "\t ", "\t\t", " \t "])),
             2 if in_clause => {
                 // a line break inside the clause, possibly followed by a comment line
                 s.push_str(nl);
@@ -119,6 +121,10 @@ pub fn render(rng: &mut Rng, wcnf: bool, num_vars: usize, clauses: &[(u64, Vec<i
             sep(rng, &mut s, true);
         }
         s.push('0');
+        if wild && rng.chance(0.12) {
+            // whitespace between the terminating 0 and the end of the line
+            s.push_str(*rng.pick(&[" ", "\t", "  ", " \t"]));
+        }
         let last = ci + 1 == clauses.len();
         if last && wild && rng.chance(0.3) {
             // no newline after the final 0
